@@ -80,7 +80,7 @@ class CanDynamicSchema: public ICanSchema {
 
     private:
         std::optional<std::string> GetMsgName(std::uint16_t sid, const std::array<char,4> bus_name) {
-            std::string bus_name_str(bus_name.begin(), bus_name.end());
+            std::string bus_name_str(bus_name.data(), strnlen(bus_name.data(), bus_name.size()));
 
             auto impls = dynamic_schema_.GetImpls();
             for (const auto& impl: impls) {
@@ -124,7 +124,8 @@ class CanDynamicSchema: public ICanSchema {
 
                 if (impl.name == msg_name) {
                     std::array<char, 4> bus_name = {0};
-                    std::copy(impl.fields.at("bus").begin(), impl.fields.at("bus").end(), bus_name.begin());
+                    const auto& bus = impl.fields.at("bus");
+                    std::copy_n(bus.begin(), std::min<std::size_t>(bus.size(), 4), bus_name.begin());
                     return bus_name;
                 }
             }
